@@ -218,6 +218,18 @@ let check_B line toks =
         exp "fen" (res_str string_of_bytes (as_fen b));
         (match get "rs" with Some _ -> exp "rs" (res_str (fun x -> tohex (string_of_bytes x)) (render_straight b));
                               exp "rf" (res_str (fun x -> tohex (string_of_bytes x)) (render_flipped b)) | None -> ());
+        (match get "muni" with
+         | Some _ ->
+           let sqs = List.init 64 n_of_int in
+           let cands = List.concat_map (fun s ->
+               match piece_on b s with
+               | Ok (Some (t, c)) when c = b.b_stm ->
+                 List.concat_map (fun dd -> List.map (fun pr -> MovePiece { pm_type = t; pm_from = s; pm_to = dd; pm_promo = pr }) [None; Some Queen; Some Knight]) sqs
+               | _ -> []) sqs @ [CastleK; CastleQ] in
+           let l = List.filter (fun m -> match is_legal_move !keys b m with Ok true -> true | _ -> false) cands in
+           exp "muni" (String.concat "," (List.sort compare (List.map mv_str l)));
+           exp "munibad" "0"
+         | None -> ());
         (match get "uni" with
          | Some _ ->
            bump "B-universe";
